@@ -11,7 +11,7 @@ BASELINE_CMD = ('cd /repo && /venv/bin/python -m pytest -ra -q -p no:cacheprovid
                 '--continue-on-collection-errors')
 
 P = {
-    'C01': ('layout / binding symmetry of parser and composer (abstract interpretation of the DSL), length links (affine, by window, tabulated), vector item-kind agreement, tabulated name=value and TXT composers, equality over the composed state, SCSV fold tabulated through the class defaults, small codecs evaluated against the wire format, defaults that read the clock, flag keyed optional parts, truth valued fields; a parsed field that reaches no constructor argument; a constant written in place of an attribute; sequences composed in the order held; timestamp / flag primitives and ECDSA points (shared tabulations); validators in the position of a default; adjacent optional text parts with the same introducer',
+    'C01': ('layout / binding symmetry of parser and composer (abstract interpretation of the DSL), length links (affine, by window, tabulated), vector item-kind agreement, tabulated name=value and TXT composers, equality over the composed state, SCSV fold tabulated through the class defaults, small codecs evaluated against the wire format, defaults that read the clock, flag keyed optional parts, truth valued fields; a parsed field that reaches no constructor argument; a constant written in place of an attribute; sequences composed in the order held; timestamp / flag primitives and ECDSA points (shared tabulations); validators in the position of a default; adjacent optional text parts with the same introducer; SSH identification string and SPF network terms by tabulation (shared)',
             'Decides the reader/writer-agreement clause of the round trip for all field values: same element sequence, widths, byte order, '
             'text codecs, nesting, optional branches, repetition; every length field the parser uses is derived by the composer from the '
             'size of what it writes (a stored or cached number is a finding); attribute binding on both sides; the SSL 2.0 header by '
@@ -23,22 +23,22 @@ P = {
             'operations on input-derived values, lazily decoded ASN.1 and certificate objects (any member read outside a ValueError handler), JSON documents of an unexpected shape, absent directives or nullable '
             'data-table columns, on any path from a parse entry point. TypeError from wrong argument types deep inside library internals '
             'is not decided.'),
-    'C03': ('entry-point contract, input ownership, return-length forms, size-sign intervals, frame containment, nested-length use, sized-array and declared windows, SSL 2.0 length tabulated, entry points and parse_parsable evaluated from their own statements (AST / paths / DSL IR); byte level primitives evaluated with the real struct module; banner terminator (shared with C07); sized-array windows followed through helper chains',
+    'C03': ('entry-point contract, input ownership, return-length forms, size-sign intervals, frame containment, nested-length use, sized-array and declared windows, SSL 2.0 length tabulated, entry points and parse_parsable evaluated from their own statements (AST / paths / DSL IR); byte level primitives evaluated with the real struct module; banner terminator (shared with C07); sized-array windows followed through helper chains; frames of constant size pinned to that size; decoder strictness flag',
             'Decides the shape of the three entry points, that no parser mutates the caller buffer, that reported lengths have a sound form '
             '(library re-encodings only as load(input).dump()), that sizes handed to primitives cannot be negative, that framing units and '
             'sized arrays parse inside the declared length, that the length a nested parse reports is used, and the SSL 2.0 RECORD-LENGTH '
             'for every header value.'),
-    'C04': ('guard / payload agreement at every NotEnoughData site, completeness gates on every path, header constants, propagation of NotEnoughData through handlers, LDAP short-input pattern (bridge evaluated on a model of the library), SSL 2.0 length tabulated, consumed length of framing units',
+    'C04': ('guard / payload agreement at every NotEnoughData site, completeness gates on every path, header constants, propagation of NotEnoughData through handlers, LDAP short-input pattern (bridge evaluated on a model of the library), SSL 2.0 length tabulated, consumed length of framing units; handshake fields contained in the declared payload (shared with C03.R5)',
             'Decides that every missing-byte count is needed-minus-available under a strict guard, that every path of a framing unit that '
             'returns a frame passes a completeness gate on the declared length, that header constants do not exceed the minimal frame, that '
             'no handler on a binary path swallows NotEnoughData, that the LDAP bridge recognises the decoder\'s short-input message for '
             'every byte count, the SSL 2.0 length arithmetic, and that the length a framing unit reports is the number of bytes it occupied. The reader-loop induction over fragmentations is an argument, not '
             'machine checked.'),
-    'C05': ('parse-range within compose-domain on the DSL IR, zone normalisation, SCSV fold/unfold, None-preserving converters, tabulated name=value / TXT / SPF network composers, URL projection, composer purity, timestamp and flag primitives tabulated, text dates tabulated over a model of dateutil, JSON number members, IDNA names with the real codec (accepted means composable), DNSKEY RSA / DSA key fields as a parse-compose-parse pipeline; numeric presence by truth value; ECDSA points (shared)',
+    'C05': ('parse-range within compose-domain on the DSL IR, zone normalisation, SCSV fold/unfold, None-preserving converters, tabulated name=value / TXT / SPF network composers, URL projection, composer purity, timestamp and flag primitives tabulated, text dates tabulated over a model of dateutil, JSON number members, IDNA names with the real codec (accepted means composable), DNSKEY RSA / DSA key fields as a parse-compose-parse pipeline; numeric presence by truth value; ECDSA points (shared); no local-time API between bytes and object; identification string composer evaluated',
             'Decides structural necessary conditions of canonical-form stability: everything the parser accepts can be composed; absent '
             'optional components stay absent; empty and absent values are written differently; URLs are rebuilt from all parts; TXT data '
             'is chunked without loss; compose leaves the object as it was; a timestamp that is accepted is written back as the same bytes; dates in text form, JSON seconds, DNS / SNI names and DNSKEY key fields that are accepted can be composed and read back equal. Idempotence itself is value level.'),
-    'C06': ('extracted parser and composer layouts compared with RFC layouts transcribed independently (sa/specs/tls.json), SSL 2.0 header tabulated over all header bytes on both sides, variant order, rejection table, timestamp primitives tabulated; extension dispatch tables against the side (client / server) the specification sends a structure in; SCSV fold tabulated with an extension list',
+    'C06': ('extracted parser and composer layouts compared with RFC layouts transcribed independently (sa/specs/tls.json), SSL 2.0 header tabulated over all header bytes on both sides, variant order, rejection table, timestamp primitives tabulated; extension dispatch tables against the side (client / server) the specification sends a structure in; SCSV fold tabulated with an extension list; attributes composed as stored (no constant or clamp in place of an attribute)',
             'Decides for every supported SSL/TLS structure that both extracted layouts equal the RFC layout (order, widths, endianness, exact '
             'vector floor/ceiling and prefix width, length fields computed from the written data, attribute and registry bindings), that '
             'the numeric registries equal the RFC/IANA numbers, that variant lists can decline, that parsers reject only what the '
@@ -51,46 +51,46 @@ P = {
             'Decides DNSSEC RDATA layouts and per-algorithm key sizes against the RFC tables, the key tag over RDATA samples on both sides of '
             'every carry boundary (even and odd lengths), the RFC 3110 exponent length forms and modulus width, that no key bytes are left '
             'unread, TXT character-strings, and the primitives behind RRSIG timestamps and DNSKEY flags.'),
-    'C09': ('layouts / registries / bindings vs sa/specs/opp.json, return-class fidelity, tag discrimination (LDAP request name included), NUL-terminated string primitive tabulated, rejection table, LDAP bridge evaluated, no class level container in parse results, 3 byte integers tabulated with the real struct; flag keyed optional parts and flag / timestamp tabulation on the opportunistic-TLS modules',
+    'C09': ('layouts / registries / bindings vs sa/specs/opp.json, return-class fidelity, tag discrimination (LDAP request name included), NUL-terminated string primitive tabulated, rejection table, LDAP bridge evaluated, no class level container in parse results, 3 byte integers tabulated with the real struct; flag keyed optional parts and flag / timestamp tabulation on the opportunistic-TLS modules; no module or class level memo between wire word and value; reported lengths of the messages',
             'Decides MySQL/RDP/OpenVPN/PostgreSQL layouts and byte orders, which registry each flag field is decoded through, LDAP schema '
             'tables, that a _parse returns its own class, that every message class checks the tag (or request name) it read, and the '
             'string<NUL> primitive on empty / offset / unterminated inputs, that no mutable object created at class or module level becomes part of a '
             'parsed message, and the 3 byte length fields for every boundary value.'),
-    'C10': ('alias-freeness of all enum tables, equality-search shape of decoders, width agreement, preserve-or-reject, GREASE decision tabulated over all codes, strict decoding, variant order, exact name matching of string registries, integer widths tabulated; factories that override the generic decoder evaluated with the real enumeration; a decoded code point reaches the attribute the composer writes',
+    'C10': ('alias-freeness of all enum tables, equality-search shape of decoders, width agreement, preserve-or-reject, GREASE decision tabulated over all codes, strict decoding, variant order, exact name matching of string registries, integer widths tabulated; factories that override the generic decoder evaluated with the real enumeration; a decoded code point reaches the attribute the composer writes; no table that outlives the call between a code and its member',
             'Discharges the whole code space without enumeration: decoding is an equality search over an alias-free table with width-matched '
             'fallback, GREASE classification equals RFC 8701 for all 256 / 65536 codes, wire text is decoded strictly, no variant shadows '
             'the ones behind it, a name index is keyed and queried by the exact wire name, unsigned decoding of every width. Contents of the dependency tables being the IANA values is decided only for the registries in sa/specs.'),
-    'C11': ('struct format table, per-byte-order branch evaluation, narrowing and masking rules, who-may-call rule for local-time APIs, flag / timestamp primitives and mpint pipelines tabulated; timestamp fields receive the stored attribute (no constant in place of None); flag tabulation with repeated members',
+    'C11': ('struct format table, per-byte-order branch evaluation, narrowing and masking rules, who-may-call rule for local-time APIs, flag / timestamp primitives and mpint pipelines tabulated; timestamp fields receive the stored attribute (no constant in place of None); flag tabulation with repeated members; local-time functions handed on as values, astimezone without a zone test; the primitives keep nothing between calls',
             'Decides the primitive-level clauses; flags, timestamps (4 and 8 bytes, seconds and milliseconds, any UTC offset, values beyond '
             '2^32, the sentinel) and SSH / fixed-length mpints are tabulated against their definitions, including refusal instead of '
             'truncation and no truncating mask in front of a width-limited write. Exactness of struct itself is trusted.'),
-    'C12': ('typestate / ownership rules on ArrayBase: check-before-mutate, bound check shape, field ownership, slice kinds, prefix source, atomic bulk edits, item-size agreement, protocol bounds, edit interface tabulated as a transition system, construction tabulated; None items and positions a list refuses in the edit tabulation; width booked per item equals width written (shared with C10.R3)',
+    'C12': ('typestate / ownership rules on ArrayBase: check-before-mutate, bound check shape, field ownership, slice kinds, prefix source, atomic bulk edits, item-size agreement, protocol bounds, edit interface tabulated as a transition system, construction tabulated; None items and positions a list refuses in the edit tabulation; width booked per item equals width written (shared with C10.R3); state kept next to the item list is rewritten by every mutator; per-kind item sizes against composer layouts; prefix rule through compose helpers',
             'With R1-R8 the invariant "_items_size == encoded body size, within the protocol\'s bounds" is inductive over the sequence '
             'interface, and a refused edit changes nothing; R9 decides the same by running every edit from every small state; R10 that a new vector '
             'owns its item list.'),
-    'C13': ('effect analysis of observers by abstract interpretation, shared mutable defaults (with the vector-constructor premise), input-alias taint, returned internals, provenance of class / module level containers and cached objects, in-place effects through aliases and helpers; mutable class level containers as fallbacks of instance attributes',
+    'C13': ('effect analysis of observers by abstract interpretation, shared mutable defaults (with the vector-constructor premise), input-alias taint, returned internals, provenance of class / module level containers and cached objects, in-place effects through aliases and helpers; mutable class level containers as fallbacks of instance attributes; mutable parameter defaults',
             'Decides purity of every observer (writes to self / class state; a sufficient condition; swap-and-restore accepted only on a '
             'class named in the source), absence of shared mutable attrs defaults, of aliasing of the input buffer, and of observers '
             'handing out the object\'s own mutable containers, and that nothing mutable kept at class or module level is handed out in a parse result.'),
-    'C14': ('ordered-iteration, no-shared-state, total-dispatch, literal-template, foreign-object, strict-codec and serialiser-purity rules; timedelta and hex rendering tabulated; ordered mapping fields; finite floats; Markdown functions return text (def-use); list concatenation with loosely validated fields; equal leaf values render equal (evaluated with the real datetime type); native values of OPTIONAL ASN.1 fields tested before use; modulus / prime of parsed keys positive (key size is their logarithm); text of parameter objects against null table fields; rendering decodes nothing; plain classes have a rendering',
+    'C14': ('ordered-iteration, no-shared-state, total-dispatch, literal-template, foreign-object, strict-codec and serialiser-purity rules; timedelta and hex rendering tabulated; ordered mapping fields; finite floats; Markdown functions return text (def-use); list concatenation with loosely validated fields; equal leaf values render equal (evaluated with the real datetime type); native values of OPTIONAL ASN.1 fields tested before use; modulus / prime of parsed keys positive (key size is their logarithm); text of parameter objects against null table fields; rendering decodes nothing; plain classes have a rendering; optional parts of a URL tested before use',
             'Decides the determinism and dispatch clauses, that rendering stores nothing into the rendered object, that no float field can hold NaN / '
             'infinities, that as_markdown hands back text, that equal instants render equal; success for every value of every type is not decided.'),
-    'C15': ('ja3 tabulated over abstract hellos against the published definition (syntactic fallback), def-use agreement with compose, GREASE decision tabulated, no class state and no extra rejections between the wire and ja3, extension model following the class fields and properties, composer adds no items; code point decoders (generic and overriding) hand out the member whose code is on the wire',
+    'C15': ('ja3 tabulated over abstract hellos against the published definition (syntactic fallback), def-use agreement with compose, GREASE decision tabulated, no class state and no extra rejections between the wire and ja3, extension model following the class fields and properties, composer adds no items; code point decoders (generic and overriding) hand out the member whose code is on the wire; hello attributes composed as stored',
             'Decides the JA3 string for every shape of hello the tabulation covers, that exactly the RFC 8701 values are ignored, that nothing '
             'on the way from bytes to ja3 keeps state between messages, and that extension parsers do not silently drop out of the '
             'sections by rejecting allowed content; equality with a reference implementation on bytes is value level.'),
-    'C16': ('hassh text and digest rendering tabulated over name-list shapes, fingerprint code tabulated, key_bytes exhaustiveness, key blob layouts vs specification, name-list scanner tabulated, validity timestamps tabulated, nested key blobs consumed completely, ECDSA point width; structures of keys and certificates composed as held (order, no substituted constants); KEXINIT bindings',
+    'C16': ('hassh text and digest rendering tabulated over name-list shapes, fingerprint code tabulated, key_bytes exhaustiveness, key blob layouts vs specification, name-list scanner tabulated, validity timestamps tabulated, nested key blobs consumed completely, ECDSA point width; structures of keys and certificates composed as held (order, no substituted constants); KEXINIT bindings; length prefixes derived from the composed body',
             'Decides HASSH (text, separators, digest rendering incl. leading zero nibbles) on all shapes of the four lists including empty '
             'ones, the fingerprint computations, and that the hashed blob is the specified encoding; digest implementations are trusted.'),
-    'C17': ('partial evaluation of all six comparison operators over the finite version table; order axioms on the decision matrix; foreign-operand guard',
+    'C17': ('partial evaluation of all six comparison operators over the finite version table; order axioms on the decision matrix; foreign-operand guard (concrete evaluation of the comparison methods where the abstract run does not fold them)',
             'The whole property is decided on the finite table: irreflexive, asymmetric, total, transitive, equal to the specified chain, '
             'every operator in the MRO consistent with (<, ==); eq/hash contract structurally; comparison with a non-version neighbour of a '
             'parsed list answers NotImplemented.'),
-    'C18': ('name matching tabulated over case patterns, whitespace runs and list scanner tabulated from their own statements, component matcher tabulated, separator runs, header line spellings (SP / HTAB on both sides), SPF term spellings, terminator sibling agreement, media type case, case-insensitive token enumerations (reviewed table); media type and token enumeration case; quoted components evaluated through compose and _parse with the real base64 codec',
+    'C18': ('name matching tabulated over case patterns, whitespace runs and list scanner tabulated from their own statements, component matcher tabulated, separator runs, header line spellings (SP / HTAB on both sides), SPF term spellings, terminator sibling agreement, media type case, case-insensitive token enumerations (reviewed table); media type and token enumeration case; quoted components evaluated through compose and _parse with the real base64 codec; SPF terms of other mechanisms are declined, not refused',
             'Decides letter case of directive, mechanism and modifier names, optional whitespace around separators and around header field '
             'values, empty list elements, trailing spaces of SPF records, by-name matching, unknown directives, absent / empty values and '
             'the field terminator; invariance over the full grammar of every header is not decided (DESIGN 11.11).'),
-    'C19': ('recursion / containment graph acyclicity (registries that cannot be evaluated are over-approximated), declared-count guards and idle paths, loop progress, no rescans, no state between parses, no element-wise searches or walks over the accumulating list in parse loops, separator scan and parser construction as step counts independent of the surrounding input; functions of the parse side that reach themselves; string array work tabulated over growing item counts, separator runs and blank runs (step increments must not grow)',
+    'C19': ('recursion / containment graph acyclicity (registries that cannot be evaluated are over-approximated), declared-count guards and idle paths, loop progress, no rescans, no state between parses, no element-wise searches or walks over the accumulating list in parse loops, separator scan and parser construction as step counts independent of the surrounding input; functions of the parse side that reach themselves; string array work tabulated over growing item counts, separator runs and blank runs (step increments must not grow); no function changes a module level container; a buffer parsed in a loop shrinks from the front',
             'Decides structural clauses bounding recursion depth and iteration counts and that the cost of a parse does not depend on '
             'earlier parses; the global linear step bound is not proven. R2 also reports a field that is read and handed to nothing, a constant substituted for an attribute the parser stores as read, and items written sorted / reversed.'),
 }
